@@ -126,6 +126,61 @@ impl KVec {
 
 include!("/verif/kani/gen/kx_cpulist_part.rs");
 
+const W: usize = 4; // widest range explored (loop bound); ids themselves are unbounded
+
+/// the set a part denotes: junk and malformed ranges denote nothing
+pub fn denotes(p: &KStr, id: usize) -> bool {
+    match p.kind {
+        1 => p.a_ok && id == p.a,
+        2 => p.a_ok && p.b_ok && p.a <= id && id <= p.b,
+        _ => false,
+    }
+}
+
+/// One part of the list, any ids in usize: the loop body appends EXACTLY the ids the part
+/// denotes, ascending, nothing for junk / empty / malformed ranges, and never panics.
+/// B(range width <= 4) — the only loop is `for c in a..=b`.
+#[kani::proof]
+#[kani::unwind(6)]
+fn c42_kx_cpulist_part_denotation() {
+    let kind: u8 = kani::any();
+    kani::assume(kind <= 2);
+    let (a, b): (usize, usize) = (kani::any(), kani::any());
+    kani::assume(b < a || b - a < W);
+    let part = KStr { kind, a, a_ok: kani::any(), b, b_ok: kani::any(), atom: false };
+    let pre: usize = kani::any();
+    kani::assume(pre <= 2);
+    let mut out = KVec { buf: [kani::any(); 8], len: pre };
+    let before = out.buf;
+    kx_cpulist_part(part, &mut out);
+    // frame: what was already collected is untouched
+    let mut i = 0;
+    while i < pre {
+        assert!(out.buf[i] == before[i]);
+        i += 1;
+    }
+    // appended ids are exactly the denoted set, ascending
+    let added = out.len - pre;
+    let mut k = 0;
+    while k < added {
+        let id = out.buf[pre + k];
+        assert!(denotes(&part, id));
+        if k > 0 {
+            assert!(out.buf[pre + k - 1] < id);
+        }
+        k += 1;
+    }
+    let want = match part.kind {
+        1 if part.a_ok => 1,
+        2 if part.a_ok && part.b_ok && part.a <= part.b => part.b - part.a + 1,
+        _ => 0,
+    };
+    assert!(added == want);
+    kani::cover!(added == W);
+    kani::cover!(kind == 2 && added == 0 && part.a_ok && part.b_ok);
+    kani::cover!(kind == 1 && added == 1);
+}
+
 // ---------------------------------------------------------------- whole function on carriers
 pub mod whole {
     use super::{KFromUsize, KStr};
